@@ -815,15 +815,55 @@ def diff_wrap_cols(ctx):
                % ('/'.join(missing), sorted(wrapped)))
     # the reduction is reached whenever the columns are present: its guard is a presence test of
     # (a superset of) the reduced columns, not of something else
+    def presence_cols(test):
+        """the column names whose presence `test` asserts (a membership test, directly or in a
+        helper of the package resolved through the module / the enclosing function); None when
+        the test is not read as a presence test"""
+        def cols_in(body):
+            has_in = any(isinstance(n, ast.Compare) and any(isinstance(o, ast.In) for o in n.ops)
+                         for n in ast.walk(body)) or any(
+                isinstance(n, ast.Call) and isinstance(n.func, ast.Attribute) and
+                n.func.attr in ('issubset', 'isin', 'issuperset') for n in ast.walk(body)) or any(
+                isinstance(n, ast.Compare) and any(isinstance(o, (ast.LtE, ast.GtE)) for o in n.ops)
+                and any(isinstance(c, ast.Call) and norm_text(c.func) == 'set'
+                        for c in ast.walk(n)) for n in ast.walk(body))
+            if not has_in:
+                return None
+            out = set()
+            for n in ast.walk(body):
+                if isinstance(n, (ast.Name, ast.Attribute, ast.List, ast.Tuple, ast.Constant)):
+                    try:
+                        c = repo.fold(n, f.module)
+                    except ValueError:
+                        continue
+                    if isinstance(c, str):
+                        out.add(c)
+                    elif isinstance(c, (list, tuple)) and c and all(isinstance(x, str) for x in c):
+                        out |= set(c)
+            return out
+        if isinstance(test, ast.Call) and isinstance(test.func, ast.Name) and len(test.args) == 1:
+            for n in ast.walk(f.node):
+                if isinstance(n, ast.FunctionDef) and n is not f.node and n.name == test.func.id:
+                    return cols_in(n)
+            q = res(test.func)
+            g = repo.lookup(q) if q else None
+            if g is not None and hasattr(g, 'node'):
+                return cols_in(g.node)
+            return None
+        return cols_in(test)
+
     for st, tcols, _ in sites:
         guards = [x for x in ast.walk(f.node) if isinstance(x, ast.If) and
                   any(y is st for y in ast.walk(x))]
         for gd in guards:
             t = norm_text(gd.test)
-            okg = ('_has_rph(' in t) or all(("'%s' in" % c) in t for c in tcols) or \
-                ('RPH_COLS' in t and 'in ' in t)
-            if 'isinstance' in t:
+            if any(isinstance(n, ast.Call) and res(n.func) == 'builtins.isinstance'
+                   for n in ast.walk(gd.test)):
                 continue          # the table / series dispatch
+            pc = presence_cols(gd.test)
+            ctx.need(pc is not None, 'compute_state_difference: guard `%s` of the angle reduction '
+                                     'is not read as a presence test' % t[:60])
+            okg = set(tcols) <= pc
             ctx.ob('DIFF-WRAP', okg, None, 'the reduction of %s is guarded by their presence'
                    % tcols, f=f, node=gd, key='guard-' + ','.join(tcols),
                    why='the reduction of %s runs only under `%s`, which is not a test that these '
